@@ -3,6 +3,7 @@ CONSTANTS
   NR = 2
   Form = "frf"
   Alpha = "frf2"
+  XLess = {}
   Export = TRUE
 SPECIFICATION Spec
 INVARIANT TypeOK
